@@ -196,6 +196,11 @@ where
                     term,
                 });
                 if *current != new_info {
+                    #[cfg(feature = "verif-hooks")]
+                    verif::record_leader_notification(
+                        self.node_id,
+                        new_info.as_ref().map(|i| (i.leader_id, i.term)),
+                    );
                     *current = new_info;
                     true
                 } else {
@@ -901,6 +906,8 @@ where
 #[cfg(feature = "verif-hooks")]
 #[path = "raft_verif.rs"]
 mod verif;
+#[cfg(feature = "verif-hooks")]
+pub use verif::verif_take_leader_notifications;
 
 #[cfg(test)]
 #[path = "raft_test/leader_change_tests.rs"]
